@@ -235,6 +235,11 @@ class Codec:
                 assert silent, f"incomplete tag {m}"
                 return (None, len(rawmsg), None)
             tag, value = toks
+            try:
+                int(tag)
+            except ValueError:
+                assert silent, f"tag is not a number {m}"
+                return (None, len(rawmsg), None)
 
             if tag == FTag.CheckSum:
                 cheksum_base = self.SOH.join(msg[:-1])
